@@ -37,7 +37,7 @@ ToSet(q) == { q[i] : i \in DOMAIN q }
 F(ok, prop, what, detail) == IF ok THEN {} ELSE { [p |-> prop, w |-> what, d |-> detail] }
 Report(fs) == IF fs = {} THEN TRUE ELSE PrintT(<<"FAIL", l, ToJson(fs)>>)
 NoPos == [board |-> EmptyBoard, stm |-> White, cast |-> {}, ep |-> 8]
-NoGo == [t |-> 0, params |-> [none |-> 0], infotime |-> -1, stopped |-> FALSE, stopt |-> 0, fresh |-> FALSE, quit |-> FALSE, cut |-> FALSE]
+NoGo == [t |-> 0, params |-> [none |-> 0], infotime |-> -1, stopped |-> FALSE, stopt |-> 0, fresh |-> FALSE, quit |-> FALSE, cut |-> FALSE, plies |-> 0]
 NoAcc == [depths |-> << >>, scores |-> << >>, pvs |-> << >>]
 Tolerance == 2500   \* ms, driver clock: wide enough for a loaded machine
 
@@ -115,7 +115,7 @@ Cmd ==
                           ELSE {}))
                /\ IF accepted
                   THEN /\ pending' = pending + 1 /\ sroot' = root /\ root' = NoPos
-                       /\ go' = [t |-> e.t, params |-> e.params, infotime |-> it, stopped |-> FALSE, stopt |-> 0, fresh |-> waiting.fresh, quit |-> FALSE, cut |-> FALSE]
+                       /\ go' = [t |-> e.t, params |-> e.params, infotime |-> it, stopped |-> FALSE, stopt |-> 0, fresh |-> waiting.fresh, quit |-> FALSE, cut |-> FALSE, plies |-> Len(rootrec)]
                        /\ waiting' = [waiting EXCEPT !.acc = NoAcc, !.fresh = FALSE]
                        /\ rootrec' = << >>
                   ELSE UNCHANGED <<rootrec, pending, sroot, root, go, waiting>>
@@ -165,7 +165,7 @@ Best ==
                    /\ Cardinality(lt) >= 2 /\ waiting.acc.depths # << >>
                 THEN LET ds == waiting.acc.depths   sc == waiting.acc.scores
                          last == ds[Len(ds)]
-                     IN F(~(/\ last < 64
+                     IN F(~(/\ last < 64 /\ last + go.plies < 400    \* (stack room: the iteration depth ends at 512 - game length - 64)
                             /\ (Has(go.params, "depth") => last < go.params.depth)
                             /\ \A i \in 1..Len(sc) : sc[i] < 1000000000 /\ sc[i] > 0 - 1000000000),
                           "C14", "bestmove arrived for a go without time limit before stop and before its depth limit",
